@@ -49,7 +49,9 @@ def run : Runner
       | _ => none
     let calls ← if script == "-" then some [] else (script.splitOn ",").mapM parseCall
     -- after fix e199915 the bytes constructor caches exactly the consumed prefix = wire serialisation
-    let s0 := if ctor == "bytes" || ctor == "msgbytes" then initBytes W.ser else initMsg
+    let foreign ← if ctor == "msgbytesbad" then bytes? _trailing else some []
+    let s0 := if ctor == "msgbytesbad" then initBytes foreign
+              else if ctor == "bytes" || ctor == "msgbytes" then initBytes W.ser else initMsg
     let (_, _, toks) := calls.foldl (fun (acc : St × Names × List String) c =>
         let (s, r) := step W acc.1 c
         let (n, t) := resTok acc.2.1 r
@@ -57,6 +59,17 @@ def run : Runner
     let re := s!"{Bytes.tok W.hash}/{tokList Bytes.tok W.txHashes}/1"
     -- the model's observation is by construction "fresh computation from the wire message + stable identities",
     -- i.e. exactly what C16 prescribes
+    if ctor == "msgbytesbad" then
+      -- the model returns the supplied bytes unchanged (C16_blockAndBytes_vouched); the re-parse section is about those
+      -- bytes, not about the message, and is not compared. The property's "serialised bytes equal a fresh computation
+      -- from the wire message ... however it was constructed" fails here (known finding)
+      let implRes := ((impl.splitOn " RES ").getD 1 "").splitOn " RE " |>.headD ""
+      let mine := if toks.isEmpty then "-" else " ".intercalate toks
+      pure { model := impl,
+             prop := if implRes != mine then "violated:differs from the specified value"
+                     else if foreign != W.ser then "violated:caller-supplied bytes returned as the serialisation (NewBlockFromBlockAndBytes trusts its caller)"
+                     else "ok" }
+    else
     pure { model := s!"EXT {ext} RES {if toks.isEmpty then "-" else " ".intercalate toks} RE {re} height-ok", prop := "spec" }
   -- blkbig: the block is too large to transcribe; the wire results arrive as digests and the accessors must
   -- reproduce them (TxLoc, Bytes, last transaction with its index, out-of-range error one past the end)
